@@ -79,7 +79,7 @@ static void grid() {
 
 // ---------------------------------------------------------------- delivery
 struct Line { long long us; std::string text; };
-static int TIMEOUT_S = 300;
+static int TIMEOUT_S = 40;     // a timed session normally takes well under 5 s of wall-clock time
 static ses::Transcript runTimed(const std::vector<std::string>& script, std::vector<Line>& lines) {
     ses::Transcript t;
     int pfd[2], efd[2];
@@ -132,7 +132,7 @@ static void deliver(const std::string& opts, const std::string& pos, const TC& t
     W->crumb(sstr);
     std::vector<Line> lines;
     ses::Transcript t = runTimed(script, lines);
-    if (t.timedOut) { R.count("reruns_after_wall_clock_limit"); TIMEOUT_S = 3000; lines.clear(); t = runTimed(script, lines); TIMEOUT_S = 300; }   // deterministic run: only a slow machine can make it hit the limit
+    if (t.timedOut) { R.count("reruns_after_wall_clock_limit"); TIMEOUT_S = 400; lines.clear(); t = runTimed(script, lines); TIMEOUT_S = 40; }   // deterministic run: only a slow machine can make it hit the limit
     ses::Analysis a = ses::analyse(t, true);
     R.count("states"); R.count("transitions", (long long)lines.size());
     std::string rep = "{\"kind\":\"ops\",\"script\":\"" + jsonEsc(sstr) + "\",\"rate\":" + std::to_string(RATE_US) + ",\"threads\":" + std::to_string(NTHREADS) + "}";
@@ -212,7 +212,11 @@ static void delivery(bool thorough) {
                 tcs.push_back(TC{"go wtime " + std::to_string(wt) + " btime " + std::to_string(bt), clockBudget(mine, buf)});
                 tcs.push_back(TC{"go wtime " + std::to_string(wt) + " btime " + std::to_string(bt) + " winc 20 binc 20 movestogo 3", clockBudget(mine, buf)});
             }
-            for (auto& tc : tcs) deliver(optsets[oi], pos, tc, 0, "");
+            for (auto& tc : tcs) {
+                // quick tier: budgets worth more than 400 000 searched nodes are left to the coarser rates (a second is a million nodes at 1 us/node)
+                if (!thorough && tc.budgetMs * 1000 / RATE_US > 400000) continue;
+                deliver(optsets[oi], pos, tc, 0, "");
+            }
         }
     }
     // stop / ponderhit injected after k virtual milliseconds of searching (k = every polling index 1..K at rate 1 us/node)
